@@ -23,7 +23,7 @@ for sid in sorted(os.listdir(V + "/seeded")):
         for p in props:
             t0 = time.time()
             r = subprocess.run(["./check", p, "--tier", tier], cwd=V, capture_output=True, text=True)
-            lines = [l for l in r.stdout.split("\n") if l.startswith(("VIOLATION", "UNDECIDED", "OK", "KNOWN"))]
+            lines = [l for l in r.stdout.split("\n") if l.startswith(("VIOLATION", "UNDECIDED", "OK"))] + [l[:60] for l in r.stdout.split("\n") if l.startswith("KNOWN")]
             print("%-8s %-4s rc=%d %4.0fs  %s" % (sid, p, r.returncode, time.time() - t0, " | ".join(lines)[:300]), flush=True)
             res[sid + ":" + p] = {"rc": r.returncode, "lines": lines}
     finally:
